@@ -84,6 +84,32 @@ theorem view_drop_empty (xs : List (Chunk Ch A)) :
       simp only [view] at ih ⊢
       simp [List.filter_cons, h, ih]
 
+
+-- filter facts used with DROP_EMPTY (loops.materialize): every kept run is a run of xs and has characters (the SMT side
+-- names its position DROPJ(xs, i)); a run with characters makes the result non-empty; the result is no longer than xs
+theorem drop_empty_mem (xs : List (Chunk Ch A)) (c : Chunk Ch A)
+    (h : c ∈ xs.filter (fun c => !c.1.isEmpty)) : c ∈ xs ∧ c.1 ≠ [] := by
+  rw [List.mem_filter] at h
+  refine ⟨h.1, ?_⟩
+  intro hnil
+  simp [hnil] at h
+
+theorem drop_empty_ne_nil (xs : List (Chunk Ch A)) (c : Chunk Ch A) (hc : c ∈ xs) (hn : c.1 ≠ []) :
+    xs.filter (fun c => !c.1.isEmpty) ≠ [] := by
+  intro h
+  have : c ∈ xs.filter (fun c => !c.1.isEmpty) := by
+    rw [List.mem_filter]
+    refine ⟨hc, ?_⟩
+    cases hcs : c.1 with
+    | nil => exact absurd hcs hn
+    | cons y ys => simp
+  rw [h] at this
+  simp at this
+
+theorem drop_empty_length_le (xs : List (Chunk Ch A)) :
+    (xs.filter (fun c => !c.1.isEmpty)).length ≤ xs.length :=
+  List.length_filter_le _ _
+
 -- Lemmas.rep_step : REP(X, n+1) = REP(X, n) ++ X
 theorem rep_succ {α : Type} (X : List α) (n : Nat) :
     (List.replicate (n + 1) X).flatten = (List.replicate n X).flatten ++ X := by
